@@ -10,7 +10,7 @@ Scratch copies live under $VERIF_SCRATCH (default /var/tmp/verif-scratch) and ar
 """
 import glob, json, os, re, shutil, subprocess, sys, concurrent.futures
 ROOT = os.path.dirname(os.path.dirname(os.path.abspath(__file__)))
-SCRATCH = os.environ.get('VERIF_SCRATCH', '/var/tmp/verif-scratch')
+SCRATCH = os.path.join(os.environ.get('VERIF_SCRATCH', '/var/tmp/verif-scratch'), str(os.getpid()))
 REPO = os.environ.get('VERIF_REPO', '/repo')
 ENV = dict(os.environ, GOFLAGS='-mod=mod', GOPROXY='off', GOSUMDB='off', GOTOOLCHAIN='local')
 
@@ -72,7 +72,7 @@ def main():
     if only:
         jobs = [j for j in jobs if any(o in j[2] or o == j[1] for o in only)]
     ok = prelude_check()
-    with concurrent.futures.ThreadPoolExecutor(max_workers=4) as ex:
+    with concurrent.futures.ThreadPoolExecutor(max_workers=8) as ex:
         for name, good, info in ex.map(lambda j: one(*j), jobs):
             print('%-4s %s  %s' % ('ok' if good else 'FAIL', name, info))
             ok = ok and good
